@@ -543,6 +543,14 @@ func (s *Server) pushReq(ctx context.Context, wantID bool, method string, params
 		P:  bits,
 	}})
 	bytesWrittenCount.Add(int64(nw))
+	if err != nil && rsp != nil {
+		// The request was not sent, so no reply to it is expected. Release the
+		// pending call and its context watcher now, rather than leaving them
+		// until ctx ends (which it may never do).
+		delete(s.call, rsp.id)
+		rsp.cancel()
+		return nil, err
+	}
 	return rsp, err
 }
 
